@@ -430,7 +430,7 @@ def run(ctx):
 
     # activation races: a change of the rule set against the FIRST log of a module (cache miss) followed by a
     # second log of the same module after the change has returned (the stale entry, if any, is then hit)
-    for ai in range(ctx.n(6, 40) * boost):
+    for ai in range(ctx.n(6, 30) * boost):
         if boost > 1 and nviol[0]:
             break          # enlarged search after a broken obligation: a failing input has been found
         r0 = rng.fork("act%d" % ai)
@@ -441,11 +441,11 @@ def run(ctx):
         prog = {"handlers": ["DEBUG"], "threads": [pre + [[kind, name]], [["log", mod, "INFO"], ["log", mod, "INFO"]]]}
         if r0.chance(40):
             prog["threads"].append([["log", mod, "INFO"]])
-        dfs_schedules(prog, bound=2, limit=ctx.n(60, 600) * (8 if boost > 1 else 1),
+        dfs_schedules(prog, bound=2, limit=ctx.n(60, 450) * (8 if boost > 1 else 1),
                       on_run=lambda r, pre_, prog=prog: judge(r, pre_, prog, "dfs-activation"))
     # level-table races: a level created at run time against a log at that level, and against add() of a handler
     # that pre-colours its format per level (colourised, static format)
-    for li in range(ctx.n(6, 30) * boost):
+    for li in range(ctx.n(6, 20) * boost):
         if boost > 1 and nviol[0]:
             break          # enlarged search after a broken obligation: a failing input has been found
         r0 = rng.fork("lvl%d" % li)
@@ -462,7 +462,7 @@ def run(ctx):
         else:
             threads = [[mk, ["level", "L0", "<green>"]], [lg], [["add", "INFO:c"], lg]]
         prog = {"handlers": hs, "threads": threads}
-        dfs_schedules(prog, bound=2, limit=ctx.n(80, 800) * (8 if boost > 1 else 1),
+        dfs_schedules(prog, bound=2, limit=ctx.n(80, 500) * (8 if boost > 1 else 1),
                       on_run=lambda r, pre_, prog=prog: judge(r, pre_, prog, "dfs-levels"))
     nprog = ctx.n(30, 80) * boost
     per_prog = ctx.n(35, 200)
